@@ -349,6 +349,9 @@ def user_body(thir_body):
         if stmts and all(_is_instrument_noise(s) for s in stmts) and cur.get("expr") is not None:
             cur = cur["expr"]
             continue
+        if stmts and any(_is_instrument_noise(s) for s in stmts) and (cur.get("sp") or {}).get("m") in ("tracing::instrument", "instrument"):
+            # mixed block generated by `#[instrument(ret)]`: keep the statement that runs the user's closure, drop the event plumbing
+            cur = dict(cur, stmts=[s for s in stmts if not _is_instrument_noise(s)])
         break
     return cur
 
@@ -356,6 +359,9 @@ def user_body(thir_body):
 def _is_instrument_noise(s):
     sp = s.get("sp") or {}
     if sp.get("m") in ("tracing::instrument", "instrument"):
+        # `#[instrument(ret)]` on a sync fn: `let x = (move || body)(); event!(x); x` — the let that runs the user's closure is not noise
+        if s.get("k") == "LetStmt" and not pat_str(s.get("pat")).startswith("__tracing") and any(n.get("k") == "Closure" for n in walk(s.get("init") or {})):
+            return False
         return True
     if s.get("k") == "Block" and not s.get("stmts") and s.get("expr") is None:
         return True
